@@ -72,6 +72,11 @@ func (d *D) Of(v ssa.Value) string {
 		if lit := d.structLit(x); lit != "" {
 			return "&" + lit
 		}
+		if sv := onlyWholeStore(x); sv != nil {
+			// address of a variable that is assigned exactly once (it may be
+			// passed on by reference, e.g. &voucher)
+			return "&(" + d.Of(sv) + ")"
+		}
 		return "&" + allocName(x)
 	case *ssa.FieldAddr:
 		return d.path(x.X) + "." + fieldNameOf(x.X.Type(), x.Field)
@@ -601,6 +606,23 @@ func freeVarBinding(fv *ssa.FreeVar) ssa.Value {
 				return mc.Bindings[idx]
 			}
 		}
+	}
+	return nil
+}
+
+// onlyWholeStore returns the value of the only store to the whole variable,
+// regardless of how its address is used otherwise.
+func onlyWholeStore(a *ssa.Alloc) ssa.Value {
+	var val ssa.Value
+	n := 0
+	for _, r := range *a.Referrers() {
+		if st, ok := r.(*ssa.Store); ok && st.Addr == a {
+			n++
+			val = st.Val
+		}
+	}
+	if n == 1 {
+		return val
 	}
 	return nil
 }
